@@ -14,6 +14,14 @@ initialX, minX, maxX, tolerance, convergenceLimit float64, maxIterations int) (x
 	if minDelta > 0 || maxDelta < 0 {
 		panic("Invalid range")
 	}
+	// an end of the bracket that already meets the tolerance is the answer: a trial point accepted later
+	// only because it is within the tolerance could be worse than that end
+	if math.Abs(minDelta) < tolerance && math.Abs(minDelta) <= math.Abs(maxDelta) {
+		return minX, minDelta
+	}
+	if math.Abs(maxDelta) < tolerance {
+		return maxX, maxDelta
+	}
 	for iteration := 0; iteration < maxIterations; iteration++ {
 		var trialXs []float64
 		var trialDeltas []float64
